@@ -107,7 +107,7 @@ INSTANCES.update({
                       "lwithre", "sprops", "swith", "sevent", "cancel", "ctxl", "ctxs", "drop", "lcstart", "lcdrop"],
                      MaxOps=4, MaxSpans=3, MaxAtt=2, MaxCycles=0, K=1, QCap=2, SCap=1, MaxScopes=2), "terminal", {}),
     "notready4": (seq(["root", "child", "childl", "setlp", "dropg", "lenter", "lexit", "levent", "lprops", "lwith", "sprops", "swith", "sevent",
-                       "cancel", "ctxl", "ctxs", "drop"], MaxOps=4, MaxSpans=3, MaxAtt=3, MaxCycles=1, ready=False), "terminal", {}),
+                       "cancel", "ctxl", "ctxs", "drop"], MaxOps=4, MaxSpans=3, MaxAtt=3, MaxCycles=1, ready=False, smp=[True, False], probe_ctx=True), "terminal", {}),
     # C04 / C09: cancel and overload
     "cancel4_c": (dict(threads=[1, 2], born=[1, 2], K=8, menu=["root", "child", "cancel", "drop", "exit"], MaxOps=4, MaxSpans=2, MaxCycles=2,
                        cancelable=True, trackcut=True), "terminal", {}),
@@ -295,3 +295,18 @@ _LATE3 = [dict(ev="spawn", t=1), dict(ev="spawn", t=2), dict(_c("root", h=101, t
           dict(_c("drop", h=101), t=1), dict(ev="push", t=1), dict(_c("exit"), t=1), dict(_c("exit"), t=2), dict(ev="cycle"), dict(ev="cycle")]
 EXTRA["churn_late"] = dict(cfg=dict(K=16, churn=True), repeat=150, behaviours=[dict(steps=_LATE1, prefix=True), dict(steps=_LATE2, prefix=True)])
 EXTRA["churn_mixed"] = dict(cfg=dict(K=16, churn=True), repeat=150, behaviours=[dict(steps=_LATE3, prefix=True), dict(steps=_LATE1, prefix=True)])
+
+# where most calls are no-ops, programs are told apart by the calls they make (see `view` in Fastrace.tla)
+for _n in ["notready4", "disabled4", "hostile4", "hostile5"]:
+    INSTANCES[_n] = (dict(INSTANCES[_n][0], distinct_ops=True), INSTANCES[_n][1], INSTANCES[_n][2])
+
+# scopes closed / collected while local spans recorded in them are still open (C17, C18; seeded S16, S17)
+INSTANCES.update({
+    "lc_open": (seq(["root", "lcstart", "lenter", "lexit", "levent", "collectopen", "lccollect", "pushc", "setlp", "drop"], MaxOps=6, MaxSpans=1, MaxRoots=1,
+                    MaxAtt=1, MaxLs=1, MaxLocal=3, MaxScopes=1, MaxCycles=1, op_sleep_us=150), "terminal", {}),
+})
+
+INSTANCES.update({
+    "scope_open": (seq(["root", "setlp", "lcstart", "lenter", "lexit", "collectopen", "pushc"], MaxOps=6, MaxSpans=1, MaxRoots=1, MaxLs=1, MaxLocal=3,
+                       MaxScopes=1, MaxCycles=0, op_sleep_us=200), "terminal", {}),
+})
